@@ -343,6 +343,25 @@ Theorem C03_whfast_init_jacobi_gravity_only_with_jacobi_coordinates :
 Proof. vm_compute. split; reflexivity. Qed.
 Print Assumptions C03_whfast_init_jacobi_gravity_only_with_jacobi_coordinates.
 
+(* ------------------------------------------------------------------ corners of the quantified space *)
+(* kepler_hyp asks for r0 > 0 and a positive new radius, nothing else: no sign condition on M, beta, X, dt and no
+   condition on the angular momentum, so C03_fg_step_on_exact_orbit covers M = 0, M < 0 (repulsive), e = 0, dt = 0 and
+   radial orbits as long as the body does not reach the centre within the step.  What the CODE does outside
+   (r0 = 0, collision within the step, non-finite arguments, |x| beyond ~1e154 or below ~1e-154 where x*x over/underflows)
+   is not covered by any theorem: there the model and the library are compared bit for bit and the call must return
+   (tools/c03.py solver_corners, judge "terminate").  ell_dom (kflow) additionally excludes x × v = 0, beta <= 0, M <= 0.
+   M = 0: uniform motion, whatever X and the G's are. *)
+Theorem C03_zero_mass_is_uniform_motion : forall (dt r0i ri G1 G2 G3 : R) (p : P6),
+  let '(x, y, z, vx, vy, vz) := p in
+  fg_update RNum 0 dt r0i ri G1 G2 G3 p = (x + dt * vx, y + dt * vy, z + dt * vz, vx, vy, vz).
+Proof. exact zero_mass_uniform_motion. Qed.
+Print Assumptions C03_zero_mass_is_uniform_motion.
+
+(* dt = 0 at X = 0: the update is the identity for every M (see also C03_zero_step_is_identity, C03_kflow_zero). *)
+Theorem C03_zero_step_update_is_identity : forall (M r0i ri : R) (p : P6), fg_update RNum M 0 r0i ri 0 0 0 p = p.
+Proof. exact zero_step_identity. Qed.
+Print Assumptions C03_zero_step_update_is_identity.
+
 (* Non-vacuity: an eccentric elliptic state (e = 3/5, beta = 1) and a parabolic one (beta = 0) with
    rational G's meet every hypothesis of C03_fg_step_on_exact_orbit; C03_fg_step_closed_form and
    Gcf_identities show the intended (transcendental) instance meets them for all beta, X. *)
